@@ -10,9 +10,13 @@ tie:    harness/c09_powerset.cc runs seeded histories over pools of Pointset_Pow
         moments; every printed state and every Boolean answer is judged by the native driver pplv_ps:
         the model of a slot is advanced by the *specification* of the operation on unions (DNF with the
         K1 deciders), and compared with the union of the printed disjuncts.
+stage 2 (checks/c09_exact.py): PPLV.Props.C09Exact + the exact tie `pplv_ps --exact`: the code-shaped model
+        lean/PPLV/Powerset/Exact.lean is replayed on the disjunct LIST and the `reduced` flag of every slot before /
+        after every step of `c09_powerset --exact 1` and must give the same list (disjunct i == disjunct i as sets).
 """
 import collections, hashlib, os, re
 from . import poly_common as pc
+from . import c09_exact
 
 LEVEL = "proof"
 PROPS = ["PPLV.Props.C09"]
@@ -240,6 +244,7 @@ def run(ctx):
     n_hist, length = (1600, 12) if quick else (40000, 20)
     cmd, journal, verd, summary = run_histories(ctx, n_hist, length, 3)
     nh, nontrivial, samples = judge(ctx, cmd, journal, verd, stats, opc, qc, domc, notes)
+    broken += c09_exact.run(ctx)          # stage 2: exact tie on disjunct lists and the reduced flag (proof + replay)
     for b in broken:
         ctx.violation("proof obligation broken: " + b, {"obligation": b}, found_input=False)
     ctx.cov.update({
@@ -276,6 +281,8 @@ def replay(ctx, path):
     print("property=%s what=%s" % (r.get("property"), r.get("what")))
     if "harness_args" not in r:
         print(json.dumps(r, indent=1)[:3000]); return 0
+    if r.get("exact"):
+        return c09_exact.replay(ctx, r, path)
     ctx.ensure_ppl()
     drv = ctx.ensure_pplv("pplv_ps")
     h = ctx.compile_harness(r.get("harness", "c09_powerset.cc"))
